@@ -325,6 +325,8 @@ class Interp:
         k = e[0]
         if k == "num":
             return P.const(F(e[1]))
+        if k == "raw":
+            return P.const(F(e[2]))
         if k == "var":
             if e[1] in st.v:
                 return st.v[e[1]]
